@@ -5,6 +5,7 @@ import sqlite3
 from typing import Dict, List, Optional, Set, Tuple
 
 from .catalogue import RefGraph, optional_outputs, r_expr
+from .harness import CLOCK
 from .profile import Monitor
 from .world import World
 
@@ -155,6 +156,15 @@ class GraphFaithful(Monitor):
         s = w.spec
         self.ref = RefGraph(s['sections'], s['icp'], s['fcp'],
                             s.get('start'))
+        # the closure only extends to the stop point, if there is one
+        self.cref = RefGraph(
+            s['sections'], s['icp'], min(s['fcp'], s.get('stop', s['fcp'])),
+            s.get('start')) if s.get('stop') is not None else self.ref
+        if s.get('stop') is not None:
+            # validity of points is judged against the real final point
+            self.cref.points = {
+                t: {p for p in pts if p <= s['stop']}
+                for t, pts in self.ref.points.items()}
 
     def on_event(self, kind: str, data: dict) -> None:
         if kind != 'cmd_start' or data['kind'] != 'jobs-submit':
@@ -190,7 +200,7 @@ class GraphFaithful(Monitor):
         return out
 
     def terminal(self, w: World, kind: str) -> List[dict]:
-        ref = self.ref
+        ref = self.cref
         latest = latest_jobs(w)
         if any(j.live for j in w.env.jobs.values()) or w.env.pending():
             if kind.startswith('quiescent'):
@@ -234,6 +244,11 @@ class GraphFaithful(Monitor):
                 'no-auto-shutdown',
                 f'every instance of the closure ran and is complete, yet '
                 f'the run ended as {kind!r} instead of shutting down'))
+        if not expect_shutdown and kind == 'quiescent:idle':
+            out.append(self.viol(
+                'no-stall-reported',
+                f'nothing can progress (incomplete={incomplete}, '
+                f'unsatisfied={waiting}) but no stall was reported'))
         if not expect_shutdown and kind == 'stopped:AUTO':
             out.append(self.viol(
                 'premature-shutdown',
@@ -365,4 +380,217 @@ class Lifecycle(Monitor):
                     f'{it.identity}: completed {sorted(comp)} without '
                     'submitted and started'))
         self.prev_outputs = cur   # (a function of the state: not in key)
+        return out
+
+
+# ---------------------------------------------------------------------------
+def retries_of(spec: dict, task: str) -> Tuple[int, int]:
+    r = spec.get('tasks', {}).get(task, {}).get('retries', {})
+    return int(r.get('exec', 0)), int(r.get('sub', 0))
+
+
+class SubmitOnce(Monitor):
+    """C02: no instance is submitted twice in a flow except for configured
+    retries; failed/submit-failed outputs only when no retry remains."""
+    name = 'submit-once'
+    submits = 0
+
+    def __init__(self):
+        self.bad: List[dict] = []
+        self.manual: Set[Tuple[str, str]] = set()
+
+    def on_event(self, kind: str, data: dict) -> None:
+        w = self.w
+        if kind == 'cmd_start' and data['kind'] == 'jobs-submit':
+            for (p, name, num) in data['jobs']:
+                SubmitOnce.submits += 1
+                n_exec, n_sub = retries_of(w.spec, name)
+                prev = [j for (pp, nn, k), j in w.env.jobs.items()
+                        if pp == p and nn == name and k < num]
+                count = len(prev) + 1
+                bound = (n_exec + 1) * (n_sub + 1)
+                if (p, name) in self.manual:
+                    continue
+                if count > bound:
+                    self.bad.append(self.viol(
+                        'too-many-submissions',
+                        f'{p}/{name} submitted {count} times; with '
+                        f'{n_exec} execution and {n_sub} submission retry '
+                        f'delays the bound is {bound}'))
+                if prev:
+                    last = max(prev, key=lambda j: j.key[2])
+                    if last.state not in ('failed', 'submit-failed'):
+                        self.bad.append(self.viol(
+                            'resubmitted-without-failure',
+                            f'{p}/{name} submitted again (#{num}) while its '
+                            f'previous job is {last.state!r}'))
+        elif kind == 'output' and data['message'] in (
+                'failed', 'submit-failed'):
+            outs = data['outputs']
+            it = None
+            if w.running:
+                for t in w.schd.pool.get_tasks():
+                    if t.state.outputs is outs:
+                        it = t
+                        break
+            if it is None:
+                return
+            p, name = str(it.point), it.tdef.name
+            if (p, name) in self.manual:
+                return
+            n_exec, n_sub = retries_of(w.spec, name)
+            jobs = [j for (pp, nn, k), j in w.env.jobs.items()
+                    if pp == p and nn == name]
+            if data['message'] == 'failed':
+                nfail = sum(1 for j in jobs if j.state == 'failed')
+                if nfail < n_exec + 1:
+                    self.bad.append(self.viol(
+                        'failed-output-with-retry-remaining',
+                        f'{p}/{name}: failed output completed after '
+                        f'{nfail} failed job(s) with {n_exec} execution '
+                        'retry delay(s) configured'))
+            else:
+                nsf = sum(1 for j in jobs if j.state == 'submit-failed')
+                if nsf < n_sub + 1:
+                    self.bad.append(self.viol(
+                        'submit-failed-output-with-retry-remaining',
+                        f'{p}/{name}: submit-failed output completed after '
+                        f'{nsf} failed submission(s) with {n_sub} submission'
+                        ' retry delay(s) configured'))
+        elif kind == 'command':
+            self.note_manual(data)
+
+    def note_manual(self, data: dict) -> None:
+        if data['name'] in ('force_trigger_tasks', 'set', 'remove_tasks'):
+            for tid in data['kwargs'].get('tasks', []):
+                parts = tid.split('/')
+                if len(parts) >= 2:
+                    self.manual.add((parts[0], parts[1]))
+
+    def after(self, w, ev):
+        out, self.bad = self.bad, []
+        return out
+
+    def key(self):
+        return tuple(sorted(self.manual))
+
+
+# ---------------------------------------------------------------------------
+def _ready(w: World, it) -> bool:
+    """Ready to run per the C03 statement (scheduler's own view of prereqs,
+    judged against the documented conditions)."""
+    st = it.state
+    if st.status != 'waiting' or st.is_held:
+        return False
+    if not st.prerequisites_all_satisfied():
+        return False
+    if st.xtriggers and not st.xtriggers_all_satisfied():
+        return False
+    if st.external_triggers and not st.external_triggers_all_satisfied():
+        return False
+    pool = w.schd.pool
+    lim = pool.runahead_limit_point
+    if lim is not None and it.point > lim:
+        return False
+    if pool.stop_point is not None and it.point > pool.stop_point:
+        return False
+    # retry delay pending?
+    for t in it.try_timers.values():
+        if t is not None and t.timeout is not None and getattr(
+                t, 'is_waiting', False) is False and t.timeout > CLOCK.now:
+            return False
+    return True
+
+
+class ShutdownStall(Monitor):
+    """C03: no premature shutdown, no false stall, no ready task left."""
+    name = 'shutdown-stall'
+    auto_stops = 0
+    stalls = 0
+
+    def __init__(self, queues_limited: bool = False):
+        self.bad: List[dict] = []
+        self.queues_limited = queues_limited
+
+    def on_event(self, kind: str, data: dict) -> None:
+        w = self.w
+        if kind == 'set_stop':
+            mode = data['mode']
+            if mode is None or mode.name != 'AUTO':
+                return
+            ShutdownStall.auto_stops += 1
+            pool = w.schd.pool
+            stop = pool.stop_point
+            for it in pool.get_tasks():
+                st = it.state
+                if st.status in ACTIVE:
+                    self.bad.append(self.viol(
+                        'auto-shutdown-with-active-task',
+                        f'automatic shutdown while {it.identity} is '
+                        f'{st.status}'))
+                elif st.status == 'waiting' and not st.is_runahead and \
+                        _ready(w, it):
+                    self.bad.append(self.viol(
+                        'auto-shutdown-with-ready-task',
+                        f'automatic shutdown while {it.identity} is waiting,'
+                        ' released and ready to run'))
+                elif st.status in FINAL and not st.outputs.is_complete():
+                    self.bad.append(self.viol(
+                        'auto-shutdown-with-incomplete-task',
+                        f'automatic shutdown while {it.identity} is '
+                        f'{st.status} and incomplete'))
+                elif st.status == 'waiting' and (
+                        stop is None or it.point <= stop):
+                    sat = [p.is_satisfied() for p in st.prerequisites]
+                    atoms_sat = [
+                        bool(v) for p in st.prerequisites
+                        for v in p._satisfied.values()]
+                    if any(atoms_sat) and not all(sat):
+                        self.bad.append(self.viol(
+                            'auto-shutdown-with-partially-satisfied-task',
+                            f'automatic shutdown while {it.identity} has '
+                            'partially satisfied prerequisites within the '
+                            'stop point'))
+        elif kind == 'stalled':
+            ShutdownStall.stalls += 1
+            schd = w.schd
+            for it in schd.pool.get_tasks():
+                if it.state.status in ACTIVE:
+                    self.bad.append(self.viol(
+                        'stall-with-active-task',
+                        f'stall reported while {it.identity} is '
+                        f'{it.state.status}'))
+                elif _ready(w, it) and not it.state.is_runahead:
+                    self.bad.append(self.viol(
+                        'stall-with-ready-task',
+                        f'stall reported while {it.identity} is ready to '
+                        'run'))
+            if schd.message_queue.qsize():
+                self.bad.append(self.viol(
+                    'stall-with-queued-messages',
+                    'stall reported with job messages still queued'))
+            if schd.proc_pool.is_not_done():
+                self.bad.append(self.viol(
+                    'stall-with-running-commands',
+                    'stall reported with commands queued/running in the '
+                    'process pool'))
+
+    def after(self, w, ev):
+        out, self.bad = self.bad, []
+        return out
+
+    def terminal(self, w: World, kind: str) -> List[dict]:
+        if not kind.startswith('quiescent') or not w.running:
+            return []
+        schd = w.schd
+        if schd.is_paused or schd.stop_mode is not None:
+            return []
+        out = []
+        for it in schd.pool.get_tasks():
+            if _ready(w, it) and not self.queues_limited:
+                out.append(self.viol(
+                    'ready-task-never-submitted',
+                    f'quiescent ({kind}) with {it.identity} waiting, '
+                    'prerequisites satisfied, not held, within the runahead'
+                    ' limit: it is never submitted'))
         return out
